@@ -11,11 +11,14 @@ import (
 	"verif/simnet"
 )
 
-var ops = []string{"NewSink", "NewSource", "SetPacketFilter", "SetReadDeadline", "Read", "WriteTo"}
+var ops = []string{"NewSink", "NewSource", "SetPacketFilter", "SetReadDeadline", "Read", "WriteTo", "SinkClose", "SourceClose"}
 
 func classesFor(op string) []string {
 	if op == "Read" {
 		return []string{"fatal", "deadline", "zero"}
+	}
+	if op == "SinkClose" || op == "SourceClose" {
+		return []string{"close-fails"}
 	}
 	// a failure whose error is also of the timeout kind (a send / setsockopt that times out) is still a failure
 	return []string{"fatal", "fatal-timeout"}
@@ -98,6 +101,16 @@ func check(it *proto.Item, r *proto.Result) []proto.Issue {
 					out = append(out, proto.Issue{Key: "result-with-error", Detail: where})
 				}
 			}
+		case "close-fails":
+			// a Close that reports an error: whether the run then fails is not stated; it must not return both, a success must
+			// be the fault-free result, and every OTHER handle is still closed exactly once (checked below for all handles)
+			if o.Err == nil {
+				if got := proto.HopsKey(proto.Hops(o.Run)); got != want {
+					out = append(out, proto.Issue{Key: "partial-result-as-success", Detail: fmt.Sprintf("%s: %s, fault-free run: %s", where, got, want)})
+				}
+			} else if o.Run != nil {
+				out = append(out, proto.Issue{Key: "result-with-error", Detail: where})
+			}
 		case "zero":
 			if o.Err == nil {
 				out = append(out, proto.Issue{Key: "failure-swallowed", Detail: fmt.Sprintf("%s: the run returned success with hops %s", where, proto.HopsString(proto.Hops(o.Run)))})
@@ -156,5 +169,5 @@ func init() {
 		"item = (variant, network answering / silent, operation in {sink constructor, source constructor, SetPacketFilter, SetReadDeadline, Read, WriteTo}, error class {fatal; for Read also deadline and zero-length}); "+
 			"the fault position is an enumerated choice: at every call of the operation reached by the run, 'fail this call' is an alternative the explorer takes once (all k reachable, incl. the second SACK filter and the handshake reads), plus the fault-free execution; "+
 			"oracle: fatal fault => (nil, error wrapping the injected cause), never a partial path as success; every constructed handle closed exactly once and never used after close; no managed thread alive when the entry point returns; open descriptors back to the pre-run count; distinct = distinct hop lists",
-		[]string{"errors of Close are outside the statement and are not injected", "deadline class: os.ErrDeadlineExceeded means 'no packet yet' by the Source contract; only result consistency / close-once / no-leak are required (DESIGN.md §6.3)"})
+		[]string{"a failing Close still releases the descriptor (close(2)); what the run returns then is not stated, only consistency and that every other handle is closed exactly once", "deadline class: os.ErrDeadlineExceeded means 'no packet yet' by the Source contract; only result consistency / close-once / no-leak are required (DESIGN.md §6.3)"})
 }
